@@ -122,7 +122,57 @@ DEPTH = {'quick': 5, 'thorough': 7}
 DEVK = {'quick': 1, 'thorough': 2}
 
 
+def hostile_task(args):
+    """C10's hostile frames, one per fresh session, counters compared with the wire afterwards"""
+    from . import c10
+    state, items = args
+    out = []
+    n = 0
+    for label, frame in items:
+        n += 1
+        w = W.replay(c10.CFG.get(state, {}), c10.STATES[state], c10.M)
+        if not w.readable():
+            continue
+        w.step(('RX', 0, frame))
+        p = w.fsm.protocol
+        sent, recv = counted(p.transport)
+        for side, want, got in (('send', sent, p.msg_sent_stat), ('receive', recv, p.msg_recv_stat)):
+            for k in sorted(ZERO):
+                if got.get(k) != want[k]:
+                    out.append(('C18|hostile|%s %s off by %+d|%s in %s' % (side, k, got.get(k, 0) - want[k], label, state),
+                                {'frame': frame.hex(), 'state': state, 'reported': {'send': dict(p.msg_sent_stat), 'receive': dict(p.msg_recv_stat)},
+                                 'counted': {'send': sent, 'receive': recv}}))
+    return n, out
+
+
+def hostile_phase(tier, seed, col):
+    from . import c10
+    from .. import seeds
+    corpus = seeds.unit_test_bytes()
+    items = []
+    seen = set()
+    for s_ in corpus + [c10.M[k][19:] for k in ('OPEN_OK', 'UPD', 'NOTIF_CEASE', 'RR')]:
+        for lab, f in c10.frames_for(s_, 'all'):
+            if f not in seen:
+                seen.add(f)
+                items.append((lab, f))
+    for s_ in [x for x in corpus if len(x) <= (24 if tier == 'quick' else 64)]:
+        for m in seeds.mutations(s_):
+            for lab, f in c10.frames_for(m, 'bodies'):
+                if f not in seen:
+                    seen.add(f)
+                    items.append((lab + '-mutated', f))
+    tasks = [(st, items[i:i + 400]) for st in ('opensent', 'openconfirm', 'established') for i in range(0, len(items), 400)]
+    total = 0
+    for n, out in explore.pmap(hostile_task, tasks, chunk=1):
+        total += n
+        for k, det in out:
+            col.add(k, {'cfg': {}, 'history': [], 'hostile': det['frame'], 'state': det['state']}, det)
+    return total, len(items)
+
+
 def run(tier, seed):
+    c01.HOSTILE_PHASE = hostile_phase
     c01.CONFIGS, c01.DEPTH, c01.DEVK = CONFIGS, DEPTH, DEVK
     c01.DEV_KINDS, c01.QUICK_DEV, c01.THOROUGH_DEV = ('coop', 'lateclose'), (1, None), (2, 8)      # the statistics menu is 3x larger than C01's
     return c01.run(tier, seed, prop=PROP, harness=Harness())
